@@ -67,20 +67,28 @@ def subpixel_pcc(
             )
         )
 
+        # The up-sampled power is centered at index ``dftshift``; keep only the
+        # region that does not exceed the maximum shifts.
         _lshift = (shifts + _max_shifts) * upsample_factor
         _rshift = (_max_shifts - shifts) * upsample_factor
-        power = crop_by_max_shifts(
-            power, _lshift.astype(np.int32), _rshift.astype(np.int32), backend
-        )
+        center = int(dftshift)
+        starts = [max(center - int(lsh), 0) for lsh in _lshift]
+        stops = [
+            min(center + int(rsh) + 1, size)
+            for rsh, size in zip(_rshift, power.shape)
+        ]
+        power = power[tuple(slice(x0, x1) for x0, x1 in zip(starts, stops))]
 
+        local_maxima = backend.asnumpy(
+            backend.unravel_index(backend.argmax(power), power.shape)
+        )
         maxima = (
-            backend.asnumpy(
-                backend.unravel_index(backend.argmax(power), power.shape)
-            ).astype(np.float32)
+            local_maxima.astype(np.float32)
+            + np.array(starts, dtype=np.float32)
             - dftshift
         )
         shifts = shifts + maxima / upsample_factor
-        pcc = math.sqrt(backend.asnumpy(power[tuple(int(round(m)) for m in maxima)]))
+        pcc = math.sqrt(backend.asnumpy(power[tuple(int(m) for m in local_maxima)]))
     else:
         pcc = math.sqrt(backend.asnumpy(power[tuple(maxima)]))
     return shifts, pcc
